@@ -19,7 +19,7 @@ from .common import Check, Driver, proof_stage, rng_for
 
 PROP = "C17"
 MODULE = "PV.Props.C17"
-THEOREMS = [f"PV.Props.C17.{t}" for t in ["splitlines_join", "num_lines_ok", "num_bytes_crlf", "empty_program"]]
+THEOREMS = [f"PV.Props.C17.{t}" for t in ["splitlines_join", "num_lines_ok", "num_bytes_crlf", "empty_program"]] + ["PV.Props.C04.scope_registers_ok"]
 
 REG_RE = re.compile(r"(?<![\w.$\"])r(1[0-5]|[0-9])(?![\w.\"])")
 
@@ -62,6 +62,18 @@ def sources(r, tier):
     """(name, src, prog-or-None)"""
     for name, src in whole.repo_sources():
         yield name, src
+    # programs split over library modules (register-held library variables, functions with and without own registers)
+    from . import c13
+    for i in range(25 if tier == "quick" else 1000):
+        src, merged, desc = c13.gen_split(r)
+        yield f"split:{i}", src
+    for k in range(1, 4):
+        libs = {f"m{j}": f"w{j} = d{j}.On\nz{j} = d{j}.Mode\ndef show():\n    d{j}.Setting = w{j}\n    d{j}.Power = z{j}\n" for j in range(k)}
+        main = "".join(f"from library import m{j}\n" for j in range(k)) + "".join(f"m{j}.show()\nm{j}.show()\n" for j in range(k))
+        yield f"libvars:{k}", dict({"": main}, **libs)
+    # programs in which no line is short enough to take the version note
+    yield "longlines:1", 'WallHeaters["A device with a really long name to make the line long"].On = 1\n' * 3
+    yield "longlines:2", "# pytrapic: original-code-as-comment\nx = db.Setting + db.On + db.Mode + db.Power + db.Lock + db.Open + db.Setting + db.Mode + db.On\ndb.Setting = x + x + x + x + x + x + x + x + x + x + x + x + x + x\n"
     n = 120 if tier == "quick" else 3000
     for i in range(n):
         g = progen.Gen(r, progen.Profile(max_stmts=5))
@@ -73,7 +85,7 @@ def run(tier: str, seed: int) -> int:
     chk = Check(PROP, tier, seed, "proof")
     chk.assumptions = ["sizes are counted in characters (ASCII programs: characters = bytes); non-ASCII comment text is outside the compared domain",
                        "lines of the emitted text contain no exotic str.splitlines separators (hypothesis NoBreaks of the theorems; violated only by control characters inside user string literals)"]
-    rep, br, audit = proof_stage(chk, MODULE, THEOREMS)
+    rep, br, audit = proof_stage(chk, MODULE, THEOREMS, ["PV.Props.C04"])
     drv = Driver()
     r = rng_for(PROP, seed)
     failures, diffs = [], []
